@@ -34,6 +34,9 @@ var atomSamples = map[string][]string{
 	"comma": {","}, "bar": {"|"}, "nil": {"[]"}, "curly": {"{}"}, "user_prefix": {"fy1", "fx1"}, "user_infix": {"xfx1", "xfy1", "yfx1"},
 }
 
+// the characters of AtomText.tla: the first 12 are the ones used with the longer names
+var atomTextChars = []rune{'a', 'A', '_', '0', '+', '.', '\'', '\\', ' ', '(', ',', '\n', '"', '`', 'é', '|', '[', ']', '{', '}', '!', ';', '%', '/', '*', ')', '∀'}
+
 var numSamples = map[string][]interface{}{
 	"int_pos": {1, 42, 4611686018427387904}, "int_neg": {-1, -42, -4611686018427387904}, "int_zero": {0}, "int_big": {int64(math.MaxInt64), int64(math.MinInt64)},
 	"float_pos": {1.0, 0.1, 1e22, 5e-324, math.MaxFloat64, 5.705004189984573e-117, 2.2250738585072014e-308, 123456789.125}, "float_neg": {-1.0, -2.5e-10, -1e100, -0.1},
@@ -76,6 +79,18 @@ func (b *rtBuilder) term(t []J) string {
 	case "atom":
 		s := atomSamples[t[1].(string)]
 		return b.atom(s[b.r.Intn(len(s))])
+	case "atomtext":
+		// AtomText.tla: the name is given character by character (numbers into atomTextChars)
+		var name []rune
+		for _, k := range t[1].([]J) {
+			name = append(name, atomTextChars[jt.Int(k)-1])
+		}
+		return b.atom(string(name))
+	case "fn":
+		f, x := b.term(t[1].([]J)), b.term(t[2].([]J))
+		v := b.v()
+		b.goals = append(b.goals, fmt.Sprintf("'=..'(%s, [%s, %s])", v, f, x))
+		return v
 	case "num":
 		s := numSamples[t[1].(string)]
 		v := b.v()
